@@ -416,6 +416,31 @@ def content_of(path):
     return out
 
 
+def complete_content(sc, path):
+    """does a reader of the completed file get every tensor of the scenario back?
+    returns None (yes) or a description of what is missing/different"""
+    if "pt" not in sc:
+        want_n = sc["steps"]
+        want = None
+    else:
+        want = [tensor_of(m) for m in sc["pt"]["mpos"]]
+        want_n = len(want)
+    try:
+        got = content_of(path)
+    except Exception as e:
+        return "cannot be read: " + type(e).__name__
+    if len(got["mpos"]) != want_n:
+        return "%d MPO tensors, expected %d" % (len(got["mpos"]), want_n)
+    for k, t in enumerate(got["mpos"]):
+        if isinstance(t, str) or t is None:
+            return "MPO tensor %d unreadable (%s)" % (k, t)
+        if want is not None and (t.shape != want[k].shape or not np.array_equal(t, want[k])):
+            return "MPO tensor %d differs" % k
+    if len(got["caps"]) != want_n + 1 or any(isinstance(c, str) for c in got["caps"]):
+        return "%d cap tensors, expected %d" % (len(got["caps"]), want_n + 1)
+    return None
+
+
 # ---------------------------------------------------------------------------
 # crash-point runner (separate interpreter; one forked child per crash point)
 # ---------------------------------------------------------------------------
@@ -481,6 +506,7 @@ def runner_main(spec_path, out_path):
             out["cmds"] = enc_cmds(rec.calls)
             out["full_dump"] = dump_file(path)
             out["full_outcome"] = classify(path)[0]
+            out["full_complete"] = complete_content(sc, path)
         make_prior(sc["prior"], path)
         out["prior_dump"] = dump_file(path)
         status, log = _fork_run(sc, path, 0, False, logp)
@@ -556,8 +582,21 @@ def eval_flag(expr, value, write):
 # correspondence
 # ---------------------------------------------------------------------------
 
+def corpus_scenarios():
+    import glob
+    out = []
+    for f in sorted(glob.glob(os.path.join(fw.CORPUS, PID, "*.json"))):
+        try:
+            sc = json.load(open(f)).get("failing_input", {}).get("scenario")
+        except (OSError, ValueError):
+            sc = None
+        if sc is not None and sc not in out:
+            out.append(sc)
+    return out
+
+
 def scenarios(tier, rng):
-    scs = []
+    scs = corpus_scenarios()          # past failures first
     scs.append({"kind": "export", "pt": gen_pt_spec(rng, length=2, rank=3, max_bond=2, with_dt=True,
                                                     with_tr=False, named=True),
                 "ovw": False, "prior": "missing"})
@@ -612,10 +651,9 @@ def judge_points(sc, result):
     if result.get("full_error"):
         return bad
     kclose = interrupted_before_close(result)
-    label = sc["kind"] + ("/overwrite" if sc.get("ovw") else "")
     for p in result["points"]:
         if p["k"] <= kclose and p["outcome"] == "clean":
-            bad.append(("interrupted-file-opens-clean:" + label,
+            bad.append(("writing-flag:interrupted-file-opens-without-warning",
                         {"scenario": sc, "killed_after_op": p["k"], "op": p["op"],
                          "variant": p["variant"], "reader": p["outcome"],
                          "how": "writer killed (os._exit%s) after h5py operation %d (%s), before "
@@ -624,13 +662,18 @@ def judge_points(sc, result):
                                 % (" after flush" if p["variant"] == "flush" else "", p["k"], p["op"])}))
             break
     if result["full_outcome"] != "clean":
-        bad.append(("closed-file-not-clean:" + label,
+        bad.append(("writing-flag:closed-file-%s" % result["full_outcome"],
                     {"scenario": sc, "reader": result["full_outcome"],
                      "how": "writer ran to completion including close(); import_process_tensor "
                             "then %s" % ("warned that the file may be corrupt"
                                          if result["full_outcome"] == "warn" else "failed")}))
+    if result.get("full_complete"):
+        bad.append(("closed-file-incomplete",
+                    {"scenario": sc, "problem": result["full_complete"],
+                     "how": "writer ran to completion including close(); the re-imported file "
+                            "does not give back every tensor"}))
     if " writing=1 " in (result.get("full_dump") or ""):
-        bad.append(("flag-survives-close:" + label,
+        bad.append(("writing-flag:still-set-after-close",
                     {"scenario": sc,
                      "how": "after a normal close() the file still carries writing=True, so it "
                             "cannot be told apart from an interrupted one"}))
@@ -669,7 +712,7 @@ def correspondence(res, tier, rng):
             res.disagree("writer scenario raised " + r["full_error"], {"scenario": sc})
             continue
         ml = model_line_for(sc, r, crash=True)
-        add(ml, ("crash", sc, r), "crash:" + json.dumps(sc, sort_keys=True)[:80])
+        add(ml, ("crash", sc, r), "crash:%d:%s" % (len(results), sc["kind"]))
     # (d) modes x path states, remove entitlement
     mode_cases = []
     for mode in ("read", "write", "overwrite", "append", "r"):
@@ -713,6 +756,24 @@ def correspondence(res, tier, rng):
     return results
 
 
+def mask_data(dump):
+    """keep the structure of a dump (attributes, shapes, row counts and row lengths) but not
+    the tensor entries.  Used for real PT-TEMPO runs: every run is a fresh floating-point
+    computation whose SVDs fix the bond gauge only up to run-dependent signs, so entries of
+    two runs (the recorded one the model is fed with, and each crashed child) differ."""
+    out = []
+    for tok in dump.split(" "):
+        for key in ("init_data=", "mpo_data=", "cap_data="):
+            if tok.startswith(key) and "[" in tok:
+                n, rows = tok[len(key):].split("[", 1)
+                rows = rows[:-1]
+                lens = [] if (rows == "" and n == "0") else [
+                    str(len(r.split(";")) if r else 0) for r in rows.split("|")]
+                tok = key + n + "[" + "|".join(lens) + "]"
+        out.append(tok)
+    return " ".join(out)
+
+
 def compare_crash(res, line, got, sc, r, key):
     if not got.startswith("ok trace="):
         res.disagree("model cannot run the writer scenario: " + got[:100], {"scenario": sc})
@@ -734,7 +795,8 @@ def compare_crash(res, line, got, sc, r, key):
         return
     # complete run: exact equality of content and reader outcome
     res.case(key + ":complete", True, {"op": line[:100], "impl": r["full_outcome"], "model": outcomes[L]})
-    if dumps[L] != r["full_dump"]:
+    norm = mask_data if sc["kind"] == "pttempo" else (lambda x: x)
+    if norm(dumps[L]) != norm(r["full_dump"]):
         res.disagree("content of the completed file differs", {
             "scenario": sc, "impl": r["full_dump"][:600], "model": dumps[L][:600]})
     if outcomes[L] != r["full_outcome"]:
@@ -749,7 +811,7 @@ def compare_crash(res, line, got, sc, r, key):
                 res.disagree("reader outcome after a flushed crash differs", {
                     "scenario": sc, "k": k, "op": p["op"], "impl": p["outcome"],
                     "model": outcomes[k]})
-            if p["dump"] != dumps[k]:
+            if norm(p["dump"]) != norm(dumps[k]):
                 res.disagree("file content after a flushed crash differs", {
                     "scenario": sc, "k": k, "op": p["op"], "impl": p["dump"][:600],
                     "model": dumps[k][:600]})
@@ -809,7 +871,9 @@ def observe_mode(mode, prior, hasfn):
                     except Exception:
                         pass
                 obs["after_close"] = "unchanged" if dump_file(path) == before else "changed"
-                fpt = oqupy.FileProcessTensor(**kw) if obs["close_ok"] else None
+                with warnings.catch_warnings():
+                    warnings.simplefilter("ignore")
+                    fpt = oqupy.FileProcessTensor(**kw) if obs["close_ok"] else None
             if fpt is not None:
                 try:
                     fpt.remove()
@@ -931,9 +995,29 @@ def search(res, results=None, rng=None):
                              ("complete" if prior == "pt" else "interrupted")})
 
 
+def replay_outcome(res):
+    """--replay: re-run one recorded failing input against the tree under test (no evidence
+    is written)"""
+    if res.failing:
+        key, payload = res.failing[0]
+        path = fw.write_replay(PID, {"property": PID, "key": key, "failing_input": payload,
+                                     "broken": ["replay"], "seed": res.seed})
+        fw.log("VIOLATION property=%s replay=%s" % (PID, path))
+        return 1
+    fw.log("OK property=%s replay no longer fails" % PID)
+    return 0
+
+
 def run(tier, seed, replay):
     res = fw.Result(PID, tier, seed, level="proof")
     rng = random.Random(seed)
+    if replay:
+        payload = json.load(open(replay))
+        sc = payload.get("failing_input", {}).get("scenario")
+        if sc is not None:
+            for key, p in judge_points(sc, crash_enumerate(sc)):
+                res.fail(key, p)
+        return replay_outcome(res)
     res.rule = ("complete enumeration: for each writer scenario (export() of hand-built PTs, a "
                 "file-backed PT filled in PT-TEMPO order, a real file-backed pt_tempo_compute; "
                 "fresh path / overwriting an older complete file) a child process is killed "
@@ -968,6 +1052,9 @@ def run(tier, seed, replay):
             res.notes.append("correspondence skipped: generated model unavailable")
     except fw.Infra as e:
         res.oblige("correspondence run", False, str(e))
+    except Exception:        # the real code (or the harness on it) raised where it should not
+        import traceback
+        res.oblige("correspondence run", False, traceback.format_exc()[-1500:])
     return fw.finish(res, lambda r: search(r, results))
 
 
